@@ -18,11 +18,63 @@ pub struct Case {
     pub site: Site,
     pub spec: ParamSpec,
     pub date: NaiveDate,
+    /// boundary-directed: Some(e) = move the latitude onto the polar-day limit of the date (where Shurooq/Maghrib are
+    /// about to stop existing and the night shrinks to nothing), bisected to adjacent f64 values, then step 10^-e deg
+    /// back towards the equator (e = 0 means the last valid latitude itself)
+    #[serde(default)]
+    pub polar_day_edge: Option<u8>,
 }
 
 const MAIN4: [(Prayer, usize); 4] = [(Prayer::Shurooq, 2), (Prayer::Dhuhr, 3), (Prayer::Asr, 4), (Prayer::Maghrib, 5)];
 const SIX: [(Prayer, usize); 6] =
     [(Prayer::Fajr, 1), (Prayer::Shurooq, 2), (Prayer::Dhuhr, 3), (Prayer::Asr, 4), (Prayer::Maghrib, 5), (Prayer::Isha, 6)];
+
+impl C08 {
+    fn polar_day_directed(&self, c: &Case, e: u8, st: &mut Stats) -> Result<(), Failure> {
+        let d0 = ephem::dec0(c.date, c.site.gmt.0);
+        let sign = if d0 >= 0.0 { 1.0 } else { -1.0 };
+        let phi = 90.0 - d0.abs() + 0.833;
+        if !(60.0..=69.9).contains(&phi) {
+            st.skip("polar_day_limit_outside_60_to_69.9");
+            return Ok(());
+        }
+        let mut cs = c.spec.clone();
+        cs.policy = gen::P_NONE;
+        let has_sunset = |lat: f64| -> bool {
+            let mut s = c.site;
+            s.lat = F(lat);
+            let tm = compute(&s, &cs, c.date, None);
+            tm[&Prayer::Shurooq].is_ok() && tm[&Prayer::Maghrib].is_ok()
+        };
+        let (mut lo, mut hi) = (sign * (phi - 0.5), sign * (phi + 0.1).min(70.0));
+        if !has_sunset(lo) || has_sunset(hi) {
+            st.skip("polar_day_bracket_not_found");
+            return Ok(());
+        }
+        for _ in 0..80 {
+            let mid = 0.5 * (lo + hi);
+            if mid == lo || mid == hi {
+                break;
+            }
+            if has_sunset(mid) {
+                lo = mid;
+            } else {
+                hi = mid;
+            }
+        }
+        let back = if e == 0 { 0.0 } else { 10f64.powf(-(e as f64)) };
+        let mut c2 = c.clone();
+        c2.site.lat = F(lo - sign * back);
+        c2.polar_day_edge = None;
+        self.check(&c2, st).map_err(|mut f| {
+            f.signature = format!("{}:at-polar-day-limit", f.signature);
+            f.observed = format!("{} [latitude {:?}: {} deg inside the polar-day limit of {}]", f.observed, c2.site.lat.0, back, c.date);
+            f
+        })?;
+        st.class("polar_day_limit_directed_done");
+        Ok(())
+    }
+}
 
 impl Prop for C08 {
     type Case = Case;
@@ -84,14 +136,18 @@ impl Prop for C08 {
                     let d = 10f64.powf(e * 5.0 / 3.0 - 3.0); // 1e-8 .. 1e-3
                     spec.policy_lat = F((site.lat.0 + sgn * d).clamp(-66.0, 66.0));
                 }
-                Case { site, spec, date }
+                Case { site, spec, date, polar_day_edge: None }
             })
+            .prop_flat_map(|c| prop_oneof![30 => Just(None), 1 => (0u8..10).prop_map(Some)].prop_map(move |e| Case { polar_day_edge: e, ..c.clone() }))
             .boxed()
     }
     fn self_test(&self) -> Result<(), String> {
         ephem::self_test()
     }
     fn check(&self, c: &Case, st: &mut Stats) -> Result<(), Failure> {
+        if let Some(e) = c.polar_day_edge {
+            return self.polar_day_directed(c, e, st);
+        }
         st.eval();
         let pol = c.spec.policy;
         let got = compute(&c.site, &c.spec, c.date, None);
